@@ -683,6 +683,298 @@ def r11_8(ctx):
     ctx.floor(rid, n, 600, "explicit policy / parameter pairings")
 
 
+# ---- R11.9: the extended arithmetic on the classes {NaN, -inf, negative, zero, positive, +inf} -----------------------
+_C6 = ("NAN", "MINF", "NEG", "ZERO", "POS", "PINF")
+_C6_TXT = {"NAN": "NaN", "MINF": "-inf", "NEG": "negative", "ZERO": "zero", "POS": "positive", "PINF": "+inf"}
+_FINITE = ("NEG", "ZERO", "POS")
+_SGN = {"MINF": -1, "NEG": -1, "ZERO": 0, "POS": 1, "PINF": 1}
+
+
+def _inf_of(sign):
+    return "PINF" if sign > 0 else "MINF"
+
+
+def _x_add(cx, cy, code="V_INF_ADD_INF"):
+    if "NAN" in (cx, cy):
+        return "NAN"
+    if {cx, cy} == {"MINF", "PINF"}:
+        return "NAN:" + code
+    for c in ("MINF", "PINF"):
+        if c in (cx, cy):
+            return c
+    return "NATIVE"
+
+
+def _x_neg(c):
+    return {"MINF": "PINF", "PINF": "MINF", "NEG": "POS", "POS": "NEG"}.get(c, c)
+
+
+def _x_mul(cx, cy):
+    if "NAN" in (cx, cy):
+        return "NAN"
+    if cx in _FINITE and cy in _FINITE:
+        return "NATIVE"
+    if "ZERO" in (cx, cy):
+        return "NAN:V_INF_MUL_ZERO"
+    return _inf_of(_SGN[cx] * _SGN[cy])
+
+
+def _x_div(cx, cy):
+    if "NAN" in (cx, cy):
+        return "NAN"
+    if cx in ("MINF", "PINF"):
+        if cy in ("MINF", "PINF"):
+            return "NAN:V_INF_DIV_INF"
+        if cy == "ZERO":
+            return "NAN:V_DIV_ZERO"
+        return _inf_of(_SGN[cx] * _SGN[cy])
+    if cy in ("MINF", "PINF"):
+        return "VAL:ZERO"
+    return "NATIVE"
+
+
+def _x_rem(cx, cy):
+    if "NAN" in (cx, cy):
+        return "NAN"
+    if cx in ("MINF", "PINF"):
+        return "NAN:V_INF_MOD"
+    if cy in ("MINF", "PINF"):
+        return "VAL:" + cx
+    return "NATIVE"
+
+
+def _x_addmul(ct, cx, cy, sub):
+    if "NAN" in (ct, cx, cy):
+        return "NAN"
+    p = _x_mul(cx, cy)
+    if p.startswith("NAN"):
+        return p
+    if p == "NATIVE":
+        return ct if ct in ("MINF", "PINF") else "NATIVE"
+    if sub:
+        p = _x_neg(p)
+    if {p, ct} == {"MINF", "PINF"}:
+        return "NAN:" + ("V_INF_SUB_INF" if sub else "V_INF_ADD_INF")
+    return p
+
+
+def _unary(table):
+    return lambda c: table.get(c, "NATIVE")
+
+
+_IDENT = {"NAN": "NAN", "MINF": "MINF", "PINF": "PINF"}
+# name -> (operand parameter names in order, expected(classes...)); `to` is an operand of the fused operations
+EXT_ARITH = {
+    "construct_ext": (("x",), _unary(_IDENT)), "assign_ext": (("x",), _unary(_IDENT)),
+    "floor_ext": (("x",), _unary(_IDENT)), "ceil_ext": (("x",), _unary(_IDENT)), "trunc_ext": (("x",), _unary(_IDENT)),
+    "neg_ext": (("x",), _unary({"NAN": "NAN", "MINF": "PINF", "PINF": "MINF"})),
+    "abs_ext": (("x",), _unary({"NAN": "NAN", "MINF": "PINF", "PINF": "PINF"})),
+    "add_2exp_ext": (("x",), _unary(_IDENT)), "sub_2exp_ext": (("x",), _unary(_IDENT)),
+    "mul_2exp_ext": (("x",), _unary(_IDENT)), "div_2exp_ext": (("x",), _unary(_IDENT)),
+    "smod_2exp_ext": (("x",), _unary({"NAN": "NAN", "MINF": "NAN:V_INF_MOD", "PINF": "NAN:V_INF_MOD"})),
+    "umod_2exp_ext": (("x",), _unary({"NAN": "NAN", "MINF": "NAN:V_INF_MOD", "PINF": "NAN:V_INF_MOD"})),
+    "sqrt_ext": (("x",), _unary({"NAN": "NAN", "MINF": "NAN:V_SQRT_NEG", "PINF": "PINF"})),
+    "add_ext": (("x", "y"), lambda a, b: _x_add(a, b)),
+    "sub_ext": (("x", "y"), lambda a, b: _x_add(a, _x_neg(b), "V_INF_SUB_INF")),
+    "mul_ext": (("x", "y"), _x_mul),
+    "div_ext": (("x", "y"), _x_div), "idiv_ext": (("x", "y"), _x_div),
+    "rem_ext": (("x", "y"), _x_rem),
+    "add_mul_ext": (("to", "x", "y"), lambda t, a, b: _x_addmul(t, a, b, False)),
+    "sub_mul_ext": (("to", "x", "y"), lambda t, a, b: _x_addmul(t, a, b, True)),
+}
+# not interpreted: the value of gcd / lcm of an infinity is a convention of the library, not a fact of the extended reals
+EXT_ARITH_SKIPPED = ("gcd_ext", "gcdext_ext", "lcm_ext", "output_ext", "input_ext", "sgn_ext")
+
+
+def _arith_interpret(f, st):
+    """All the outcomes of the extended primitive f on the operand classes st (CFG walk): 'NAN', 'NAN:V_code', 'MINF',
+    'PINF', 'VAL:<class>' (a plain value of that class stored, reported exact), 'NATIVE' (the primitive of the
+    underlying type called on finite operands), 'NATIVE!' (called with a special value among its operands)."""
+    SPECIAL = {"VC_NAN": "NAN", "VC_MINUS_INFINITY": "MINF", "VC_PLUS_INFINITY": "PINF"}
+
+    def cls_of(e):
+        e = f.deref(e)
+        t = f.text(e).strip()
+        if e["k"] == "ref" and t in st:
+            return st[t]
+        return None
+
+    def ev(e):
+        e = f.deref(e)
+        k = e["k"]
+        t = f.text(e).replace(" ", "")
+        if k == "paren":
+            return ev(e["c"][0])
+        if k == "bool":
+            return {t == "true"}
+        if k == "ref" and (t.startswith("check_") or "::check_" in t):
+            return {True}        # the checking configuration: with the check off the case is excluded by contract
+        if k == "ref" and t.startswith("VR_"):
+            return {t}
+        if k == "unop" and e.get("op") == "!":
+            return {not v for v in ev(e["c"][0])}
+        if k in ("binop", "ocall") and e.get("op") == ",":
+            return ev(e["c"][-1])
+        if k in ("binop", "ocall") and e.get("op") in ("&&", "||"):
+            a, b = e["c"][-2:]
+            out = set()
+            for av in ev(a):
+                if (e["op"] == "&&") == bool(av):
+                    out |= ev(b)
+                else:
+                    out.add(bool(av))
+            return out
+        if k == "cond":
+            c, a, b = e["c"][-3:]
+            out = set()
+            for cv in ev(c):
+                out |= ev(a if cv else b)
+            return out
+        if k in ("call", "mcall"):
+            cn = f.call_name(e).lstrip("~")
+            args = f.call_args(e)
+            c0 = cls_of(args[0]) if args else None
+            if cn in ("is_nan", "is_minf", "is_pinf") and c0 is not None:
+                return {c0 == {"is_nan": "NAN", "is_minf": "MINF", "is_pinf": "PINF"}[cn]}
+            if cn == "ext_to_handle" and c0 is not None:
+                return {True} if c0 not in _FINITE else {True, False}
+            if cn == "sgn_ext" and c0 is not None:
+                return {"VR_EMPTY"} if c0 == "NAN" else {{-1: "VR_LT", 0: "VR_EQ", 1: "VR_GT"}[_SGN[c0]]}
+            if cn == "sgn" and c0 is not None:
+                if c0 not in _FINITE:
+                    return {"NATIVE!"}
+                return {{-1: "VR_LT", 0: "VR_EQ", 1: "VR_GT"}[_SGN[c0]]}
+        raise _UnknownForm("condition `%s` at line %s" % (f.text(e)[:40], e.get("l")))
+
+    def outcome(ret, to_cls):
+        e = f.deref(ret["c"][0])
+        t = f.text(e).replace(" ", "")
+        if e["k"] in ("call", "mcall"):
+            cn = f.call_name(e).lstrip("~")
+            args = f.call_args(e)
+            if cn in ("assign_special", "construct_special") and len(args) >= 2:
+                c = f.text(f.deref(args[1])).strip()
+                if c in SPECIAL:
+                    return SPECIAL[c]
+            if cn == "assign_nan" and len(args) == 2:
+                return "NAN:" + f.text(f.deref(args[1])).strip()
+            ops = [cls_of(a) for a in args]
+            ops = [c for c in ops if c is not None]
+            if ops:
+                return "NATIVE" if all(c in _FINITE for c in ops) else "NATIVE!"
+        if e["k"] == "ref" and t == "V_EQ" and to_cls is not None:
+            return "VAL:" + to_cls
+        raise _UnknownForm("terminal `%s` at line %s" % (t[:40], ret.get("l")))
+
+    blocks = {b["id"]: b for b in f.cfg["b"]}
+    out = set()
+
+    def walk(bid, to_cls, depth):
+        if depth > 300:
+            raise _UnknownForm("a loop in %s" % f.name)
+        b = blocks[bid]
+        for nid in b["e"]:
+            n = f.nodes.get(nid)
+            if n is None:
+                continue
+            if n["k"] == "assign" and f.text(f.deref(n["c"][0])).strip() == "to":
+                r = f.deref(n["c"][1])
+                rt = f.text(r).strip()
+                to_cls = "ZERO" if rt == "0" else cls_of(r)
+                if to_cls is None:
+                    raise _UnknownForm("`to = %s` at line %s" % (rt[:20], n.get("l")))
+            if n["k"] == "return":
+                out.add(outcome(n, to_cls))
+                return
+        if b.get("tk") == "SwitchStmt":
+            for v in ev(f.nodes[b["tc"]]):
+                if v == "NATIVE!":
+                    out.add("NATIVE!")
+                    continue
+                target = default = None
+                for sid in b["s"]:
+                    lbl = f.nodes.get(blocks[sid].get("lbl"))
+                    if lbl is None:
+                        raise _UnknownForm("switch successor without a label in %s" % f.name)
+                    if lbl["k"] == "default":
+                        default = sid
+                    elif lbl["k"] == "case":
+                        cv = f.text(f.deref(lbl["c"][0])).strip() if lbl.get("c") else f.text(lbl)
+                        if cv == v:
+                            target = sid
+                if target is None:
+                    target = default
+                if target is None:
+                    raise _UnknownForm("switch without a default in %s" % f.name)
+                walk(target, to_cls, depth + 1)
+        elif "tc" in b:
+            for v in sorted(ev(f.nodes[b["tc"]]), key=str):
+                if v == "NATIVE!":
+                    out.add("NATIVE!")
+                    continue
+                walk(b["s"][0] if v else b["s"][1], to_cls, depth + 1)
+        elif len(b["s"]) == 1:
+            walk(b["s"][0], to_cls, depth + 1)
+        else:
+            raise _UnknownForm("block %s of %s" % (bid, f.name))
+
+    walk(f.cfg["entry"], None, 0)
+    return out
+
+
+def r11_9(ctx):
+    import itertools
+    rid = "R11.9"
+    ctx.rule(rid, "the extended arithmetic classifies special values as the extended reals do: each *_ext primitive of checked_ext_inlines.hh (22 functions: copies, neg, abs, floor/ceil/trunc, add, sub, mul, div, idiv, rem, the fused add_mul / sub_mul with the destination as third operand, the 2exp family, sqrt) is interpreted on every combination of operand classes {NaN, -inf, negative, zero, positive, +inf} — is_nan / is_minf / is_pinf / sgn_ext decided by the class, switch arms chosen by the sign, CHECK_P taken in the checking configuration, ext_to_handle followed both ways on finite operands — and every path must end in the outcome of the extended reals: NaN in, NaN out; inf + -inf, inf - inf, inf * 0, inf / inf, inf / 0, inf mod y, sqrt(-inf) are the undefined results with their own codes; an infinity with the sign the operation gives it; finite / inf is a stored zero; x mod inf is x; and the primitive of the underlying type is called exactly when every operand is finite (never on the encoding of a special value). gcd / lcm of infinities are conventions and are not judged")
+    fx = ctx.extract([F.driver_unit("all_headers.cc", file_re=r"checked_ext_inlines\.hh")])
+    fns = {}
+    others = set()
+    for f in fx.functions:
+        if f.flag("pattern") and f.name.endswith("_ext") and f.cfg:
+            if f.name in EXT_ARITH:
+                fns.setdefault(f.name, f)
+            elif f.name not in EXT_CMP and f.name not in EXT_ARITH_SKIPPED:
+                others.add(f.name)
+    ctx.require(rid, not others, "extended primitives the rule does not know: %s" % ", ".join(sorted(others)))
+    missing = sorted(set(EXT_ARITH) - set(fns))
+    ctx.require(rid, not missing, "extended primitives not found in checked_ext_inlines.hh: %s" % ", ".join(missing))
+    n = 0
+    for name in sorted(fns):
+        f = fns[name]
+        ops, expected = EXT_ARITH[name]
+        pn = [p["n"] for p in f.params]
+        ctx.require(rid, all(o in pn for o in ops), "%s no longer has the parameters %s" % (name, ", ".join(ops)))
+        bad = []
+        try:
+            for combo in itertools.product(_C6, repeat=len(ops)):
+                n += 1
+                got = _arith_interpret(f, dict(zip(ops, combo)))
+                want = expected(*combo)
+                if got != {want}:
+                    bad.append((combo, got, want))
+        except _UnknownForm as ex:
+            raise F.AnalysisBroken("R11.9: %s: %s — the class interpretation does not know this form" % (name, ex))
+
+        def show(v):
+            if v == "NATIVE":
+                return "the primitive of the underlying type"
+            if v == "NATIVE!":
+                return "the primitive of the underlying type, called on a special value"
+            if v.startswith("VAL:"):
+                return "a stored %s value reported exact" % _C6_TXT[v[4:]]
+            if v.startswith("NAN:"):
+                return "NaN (%s)" % v[4:]
+            return _C6_TXT.get(v, v)
+        if bad:
+            for combo, got, want in bad:
+                ctx.violation(rid, "%s(%s)" % (name, ", ".join(_C6_TXT[c] for c in combo)), f.where(),
+                              "for %s the function ends in %s; the extended reals give %s" % (", ".join("%s = %s" % (o, _C6_TXT[c]) for o, c in zip(ops, combo)), " or ".join(sorted(show(v) for v in got)), show(want)))
+        else:
+            ctx.ok(rid, "%s on %d operand class combinations" % (name, len(_C6) ** len(ops)), f.where())
+    ctx.count(rid, "operand class combinations interpreted", n)
+    ctx.floor(rid, n, 14 * 6 + 6 * 36 + 2 * 216, "operand class combinations interpreted")
+
+
 def run(ctx):
     ctx.explanation = ("C11 discipline clauses: encodings and policies as compile-time witnesses (also with bounded coefficients), routing of every primitive's Result into the "
                        "policy, FPU rounding-mode pairing, and — thorough tier — a type-check of the whole library with bounded coefficients; the arithmetic of the primitives is not decided")
@@ -697,5 +989,6 @@ def run(ctx):
     r11_6(ctx)
     r11_7(ctx)
     r11_8(ctx)
+    r11_9(ctx)
     if ctx.tier == "thorough":
         r11_3(ctx)
